@@ -275,7 +275,8 @@ def _place_faults_c15(r, steps, cfg):
         if not free:
             return
         s = r.choice(free)
-        s["fault"] = {"kind": "interrupt", "k": int(round(2 ** r.uniform(0, 13)))}
+        s["fault"] = {"kind": "interrupt", "k": int(round(2 ** r.uniform(0, 13))),
+                      "exc": r.choice(["interrupt", "interrupt", "interrupt", "memory", "key", "type", "os"])}
 
 
 def _script(r, client, world, counter):
